@@ -27,6 +27,13 @@ two options of one renderable x 16 x 16) on utf-8, ascii-only and legacy-windows
 code mapping a style to an index / character set sees every pair of attributes, also when the
 two come from different levels (tree root x branch, table x column x row, frame x child).
 
+Part "cols": 2- and 3-column tables, every assignment of one numeric option per column
+(ratio 0/1/2, width 0/5, min_width 0, max_width 0, no_wrap, none) x table plain / expand /
+width=20 / width=0 / min_width=0, rendered and measured.
+Part "again": one object per tree rendered four times (24, 24, 6, 24 cells) -- a render must not
+leave the object in a state the next render chokes on (span-carrying, justified Texts in every
+container).
+
 Anything else (any other exception type, or > 5 s in one call) is a violation
 with finding key  <entry point>/<ExcType>/<file>:<function that raised>.
 
@@ -137,6 +144,9 @@ def _where(exc):
     cause/context chain is followed. Falls back to the innermost frame of all."""
     first = None
     seen = 0
+    inner = exc.__cause__ or exc.__context__
+    if isinstance(exc, RuntimeError) and isinstance(inner, StopIteration):
+        exc = inner          # PEP 479 wrapper: the StopIteration says where it happened
     while exc is not None and seen < 4:
         tb = exc.__traceback__
         last = last_rich = None
@@ -377,17 +387,17 @@ MENU = {
              ("overflow", ["fold", "ellipsis"], ["crop"]),
              ("no_wrap", [True], [])],
     "rule": [("characters", ["あ"], ["=-"]), ("align", ["left"], ["right"])],
-    "bar": [("width", [1, 30], [5]),
+    "bar": [("width", [0, 1, 30], [5]),
             ("span", [[10, 7, 2], [10, 2.5, 2.6]], [[10, 0, 10], [1, 0.25, 0.75], [3, -1, 5]])],
-    "pbar": [("width", [1, 30], [5]), ("pulse", [True], []),
+    "pbar": [("width", [0, 1, 30], [5]), ("pulse", [True], []),
              ("completed", [150], [0, 100, -5, 33.3]), ("total", [0], [0.5, 7])],
     "group0": [],
     "panel": [("box", [], ["ASCII", "HEAVY"]), ("title", ["ti", "a long title here"], ["あ"]),
               ("title_align", [], ["left", "right"]), ("expand", [False], []),
-              ("width", [1, 2, 3, 30], [5]), ("padding", [0, [2, 5, 1, 0]], [[1, 2]])],
+              ("width", [0, 1, 2, 3, 30], [5]), ("padding", [0, [2, 5, 1, 0]], [[1, 2]])],
     "padding": [("pad", [1, [0, 30]], [[0, 2], [1, 0, 1, 3]]), ("expand", [False], [])],
-    "align": [("align", ["center", "right"], []), ("pad", [False], []), ("width", [1, 30], [3])],
-    "constrain": [("width", [1, 3, None], [10])],
+    "align": [("align", ["center", "right"], []), ("pad", [False], []), ("width", [0, 1, 30], [3])],
+    "constrain": [("width", [0, 1, 3, None], [10])],
     "styled": [("style", ["on red"], [])],
     "group": [("fit", [False], [])],
     "columns": [("equal", [True], []), ("expand", [True], []), ("column_first", [True], []),
@@ -525,7 +535,10 @@ def build(chain, i=0):
 
     if kind == "text":
         from rich.text import Text
-        return Text(variant, justify=g("justify"), overflow=g("overflow"), no_wrap=g("no_wrap"))
+        t = Text(variant, justify=g("justify"), overflow=g("overflow"), no_wrap=g("no_wrap"))
+        if "span" in dev:                       # only used by part "again"
+            t.stylize(dev["span"], 1, 4)
+        return t
     if kind == "rule":
         from rich.rule import Rule
         return Rule(variant, characters=g("characters", "─"), align=g("align", "center"))
@@ -856,6 +869,140 @@ def _part_style(sh, tier, res):
     res.count("style_cases", n)
 
 
+# ------------------------------------------------------------------ part "cols": numeric column options incl. zero
+# Every assignment of one numeric option per column, for 2 and 3 columns: none | ratio 0/1/2 | width 0/5 |
+# min_width 0 | max_width 0 | no_wrap -- zero is a legal int wherever None and positive values are --
+# x table mode (plain, expand=True, width=20, width=0, min_width=0) x widths, render + measure.
+COL_OPTS = [None, ["ratio", 0], ["ratio", 1], ["ratio", 2], ["width", 0], ["width", 5], ["min_width", 0],
+            ["max_width", 0], ["no_wrap", True]]
+TABLE_MODES = [{}, {"expand": True}, {"width": 20}, {"width": 0}, {"min_width": 0}]
+COLS_WIDTHS = [1, 6, 20, 40]
+
+
+def cols_cases(tier):
+    for ncols in (2, 3):
+        for opts in itertools.product(range(len(COL_OPTS)), repeat=ncols):
+            for mode in range(len(TABLE_MODES)):
+                yield list(opts), mode
+
+
+def build_cols(opts, mode):
+    from rich.table import Table
+    t = Table(**TABLE_MODES[mode])
+    for i, o in enumerate(opts):
+        kw = {}
+        if COL_OPTS[o] is not None:
+            kw[COL_OPTS[o][0]] = COL_OPTS[o][1]
+        t.add_column("h%d" % i, **kw)
+    t.add_row(*["ab cd", "あい", "x"][:len(opts)])
+    t.add_row(*["e", "", "longer cell"][:len(opts)])
+    return t
+
+
+def check_cols(opts, mode, w, res):
+    from rich.measure import Measurement
+    case = {"part": "cols", "opts": opts, "mode": mode, "w": w}
+    con = console(w)
+    what = "Table(%r) with column options %r at width %d" % (TABLE_MODES[mode], [COL_OPTS[o] for o in opts], w)
+    st, _ = call(res, "render", lambda: list(con.render(build_cols(opts, mode), con.options)), (), case,
+                 "list(Console.render(...)) of " + what)
+    st2, _ = call(res, "measure", lambda: Measurement.get(con, build_cols(opts, mode), w), (), case,
+                  "Measurement.get of " + what)
+    kinds = tuple(sorted(set(COL_OPTS[o][0] if COL_OPTS[o] else "-" for o in opts)))
+    res.sig(("cols", kinds, mode, _wclass(w), st, st2))
+
+
+def _part_cols(sh, tier, res):
+    n = 0
+    with _Timer():
+        for idx, (opts, mode) in enumerate(cols_cases(tier)):
+            if idx % sh["n"] != sh["i"]:
+                continue
+            if deadline_passed() or res.counters.get("hangs_confirmed", 0) >= MAX_HANGS:
+                res.capped = True
+                break
+            n += 1
+            for w in COLS_WIDTHS:
+                check_cols(opts, mode, w, res)
+            if idx % 997 == 0:
+                res.sample({"part": "cols", "opts": opts, "mode": mode, "w": "all"}, limit=1)
+    res.count("cols_cases", n)
+
+
+# ------------------------------------------------------------------ part "again": the same objects rendered repeatedly
+# History dimension: ONE object per tree is rendered, measured, rendered again at the same width, at a
+# narrower width and at the first width again; nothing may raise. Leaves are Texts with a styled span x
+# justify x overflow x no_wrap (a render must not edit what the next render reads) plus the other leaves;
+# alone and inside every container layout with <=1 option deviation (full menus).
+AGAIN_WIDTHS = [24, 24, 6, 24]
+
+
+def again_trees(tier):
+    lv = []
+    for justify in (None, "left", "center", "right", "full"):
+        for overflow in (None, "ellipsis"):
+            for no_wrap in (False, True):
+                dev = {"span": "bold"}
+                if justify:
+                    dev["justify"] = justify
+                if overflow:
+                    dev["overflow"] = overflow
+                if no_wrap:
+                    dev["no_wrap"] = True
+                lv.append(["text", "ab cd ef", dev])
+    lv += [["text", "a\nbb c", {"span": "red", "justify": "right"}], ["rule", "ti", {}], ["bar", None, {}],
+           ["pbar", None, {}], ["pbar", None, {"pulse": True}]]
+    for leaf in lv:
+        yield [leaf]
+    for kind in CONTAINERS:
+        for variant in VARIANTS[kind]:
+            slots = [(0, axis, values) for axis, values in menu(kind, variant, True)]
+            for vec in vectors(slots, 1):
+                for leaf in lv:
+                    yield [[kind, variant, {axis: v for _n, axis, v in vec}], leaf]
+
+
+def check_again(chain, res):
+    from rich.measure import Measurement
+    holder = []
+    kinds = (chain[0][0], len(chain))
+    outcome = []
+    for step, w in enumerate(AGAIN_WIDTHS):
+        con = console(w)
+        case = {"part": "again", "chain": chain, "step": step}
+
+        def render():
+            if not holder:
+                holder.append(build(chain))
+            return list(con.render(holder[0], con.options))
+        what = "render #%d (widths %r, same object) of tree %r" % (step + 1, AGAIN_WIDTHS[:step + 1], chain)
+        st, _ = call(res, "render" if step == 0 else "rerender", render, (), case, what)
+        outcome.append(st)
+        if step == 0 and holder:
+            st, _ = call(res, "measure", lambda: Measurement.get(con, holder[0], w), (), case,
+                         "Measurement.get after " + what)
+            outcome.append(st)
+        if not holder:
+            break
+    res.sig(("again", kinds, tuple(outcome)))
+
+
+def _part_again(sh, tier, res):
+    n = 0
+    with _Timer():
+        for idx, chain in enumerate(again_trees(tier)):
+            if idx % sh["n"] != sh["i"]:
+                continue
+            if deadline_passed() or res.counters.get("hangs_confirmed", 0) >= MAX_HANGS:
+                res.capped = True
+                break
+            n += 1
+            check_again(chain, res)
+            if idx % 1009 == 0:
+                res.sample({"part": "again", "chain": chain}, limit=1)
+    res.count("again_trees", n)
+
+
 # ------------------------------------------------------------------ protocol
 def plan(tier, seed):
     shards = []
@@ -863,6 +1010,8 @@ def plan(tier, seed):
     # trees first: the expensive shards start early
     nt = 48 if tier == "quick" else 192
     shards += [{"part": "tree", "i": i, "n": nt} for i in range(nt)]
+    shards += [{"part": "cols", "i": i, "n": 16} for i in range(16)]
+    shards += [{"part": "again", "i": i, "n": 16} for i in range(16)]
     ns = 16 if tier == "quick" else 64
     shards += [{"part": "style", "i": i, "n": ns} for i in range(ns)]
     for fam in _families(tier):
@@ -880,6 +1029,10 @@ def run_shard(sh, tier, seed):
         _part_tok(sh, tier, res)
     elif sh["part"] == "style":
         _part_style(sh, tier, res)
+    elif sh["part"] == "cols":
+        _part_cols(sh, tier, res)
+    elif sh["part"] == "again":
+        _part_again(sh, tier, res)
     else:
         _part_tree(sh, tier, res)
     dt = time.process_time() - t0
@@ -913,6 +1066,13 @@ def describe(tier, seed, res):
                 "background, link} (styles given in different places that the renderer combines: tree levels, table/column/"
                 "row, frame/border/child); each on a utf-8, an ascii-only and a legacy-windows console at widths %s through "
                 "list(Console.render()). "
+                "cols: tables of 2 and 3 columns with every assignment of one numeric option per column from {none, ratio "
+                "0/1/2, width 0/5, min_width 0, max_width 0, no_wrap} x table {plain, expand, width=20, width=0, min_width=0} "
+                "at widths 1, 6, 20, 40, rendered and measured (zero is enumerated wherever None and positive ints are legal; "
+                "the tree part also has width=0 for Panel, Align, Constrain, Bar, ProgressBar). "
+                "again (history): ONE object per tree is rendered at widths 24, 24, 6, 24 (measured after the first render); "
+                "trees = Text with a styled span x justify x overflow x no_wrap (20) + 5 other leaves, alone and inside every "
+                "container layout with <=1 option deviation; the 2nd..4th render must not raise either. "
                 "Outcome must be 'returns' or the documented exception of the entry point; a call is non-trivial when it "
                 "raised the documented error, parsed something, or produced visible output; distinct = (entry point | "
                 "container kinds, width class, outcome class) signatures."
@@ -933,11 +1093,16 @@ def describe(tier, seed, res):
             "valid options only: positive int widths, non-negative paddings, ratio >= 1, Bar size > 0; "
             "ProgressBar total=0 and completed outside 0..total are included because the renderer clamps them explicitly",
             "a hang is a call that exceeds 5 s wall AND, re-run, 5 s CPU time",
-            "one object per (tree, width): rendered, then measured",
+            "part tree: one object per (tree, width): rendered, then measured; part again: one object per tree, "
+            "rendered four times",
+            "0 is treated as a valid value of every int option that also accepts None and positive ints "
+            "(widths, min/max widths, ratio); Bar(size=0) is not (it is the divisor the docs call the end of the bar)",
         ],
         "coverage": {"states": 0, "transitions": 0,
                      "trees": c.get("trees", 0), "widths_per_tree": len(WIDTHS),
                      "style_cases": c.get("style_cases", 0), "console_kinds": CONSOLE_KINDS,
+                     "cols_cases": c.get("cols_cases", 0), "again_trees": c.get("again_trees", 0),
+                     "again_widths": AGAIN_WIDTHS,
                      "token_length_bound": L},
     }
 
@@ -947,6 +1112,11 @@ def replay(case):
     with _Timer():
         if case.get("part") == "tok":
             check_string(case["fam"], case["s"], res)
+        elif case.get("part") == "cols":
+            for w in (COLS_WIDTHS if case.get("w") in (None, "all") else [case["w"]]):
+                check_cols(case["opts"], case["mode"], w, res)
+        elif case.get("part") == "again":
+            check_again(case["chain"], res)
         elif case.get("part") == "style":
             kinds = CONSOLE_KINDS if case.get("kind") in (None, "all") else [case["kind"]]
             ws = _style_widths("thorough") if case.get("w") in (None, "all") else [case["w"]]
